@@ -64,7 +64,11 @@ def as_num(v):
 
 
 def simp(t):
-    return z3.simplify(t)
+    """simplify, but never let z3's rewriter introduce its internal seq.nth_i / seq.nth_u (not exportable)"""
+    r = z3.simplify(t)
+    if 'seq.nth_' in r.sexpr():
+        return t
+    return r
 
 
 def const_int(t):
@@ -206,7 +210,7 @@ class Engine:
         """resolve a VUnion into concrete-kind alternatives (forking)"""
         if not isinstance(v, VUnion):
             return [(p, v)]
-        t = z3.simplify(v.t)
+        t = simp(v.t)
         if z3.is_app(t) and t.decl().name().startswith('v_'):
             kinds = [t.decl().name()[2:]]
         else:
@@ -241,7 +245,7 @@ class Engine:
             elif k == 'none':
                 out.append((q, VNone()))
             else:
-                val = mk_value(k, z3.simplify(v.get(k)))
+                val = mk_value(k, simp(v.get(k)))
                 self.wf_value(q, val)
                 out.append((q, val))
         return out
@@ -324,7 +328,7 @@ class Engine:
         for q, c in self.cases(p, v):
             if c is None:
                 raise Unsupported('truth of unset attribute')
-            t = z3.simplify(self.truth_term(q, c))
+            t = simp(self.truth_term(q, c))
             if z3.is_true(t):
                 out.append((q, True))
             elif z3.is_false(t):
@@ -584,7 +588,7 @@ class Engine:
         return self.bind(self.ev(node.test, p, fc), f)
 
     def ite_value(self, p, c, a, b):
-        c = z3.simplify(c) if not isinstance(c, bool) else z3.BoolVal(c)
+        c = simp(c) if not isinstance(c, bool) else z3.BoolVal(c)
         if z3.is_true(c):
             return a
         if z3.is_false(c):
